@@ -116,6 +116,22 @@ class Gen:
                 self.scope_accs.pop()
         return self._block(vals, depth, ind, nst, cur)
 
+    def _branch_value(self, vals, ind):
+        """the value a conditional yields: an existing value, or computed inside the branch from region-local and outer values
+        (both operand orders), so that the conditional itself becomes an input of the setups that use its result"""
+        if self.r.random() < 0.5:
+            return [f"{ind}scf.yield {self.r.choice(vals)} : i32"]
+        out = []
+        k = self.fresh()
+        out.append(f"{ind}{k} = arith.{self.r.choice(['addi', 'muli'])} {self.r.choice(vals)}, {self.r.choice(vals)} : i32")
+        z = self.fresh()
+        a, b = k, self.r.choice(vals[-3:] + vals)
+        if self.r.random() < 0.5:
+            a, b = b, a
+        out.append(f"{ind}{z} = arith.{self.r.choice(['addi', 'subi', 'muli'])} {a}, {b} : i32")
+        out.append(f"{ind}scf.yield {z} : i32")
+        return out
+
     def _child(self, cur):
         """scope of a nested block: the states visible from the enclosing blocks stay visible"""
         return {k: list(v) for k, v in cur.items() if k.startswith("_vis_")}
@@ -187,10 +203,10 @@ class Gen:
                     r = self.fresh("r")
                     out.append(f"{ind}{r} = scf.if {c} -> (i32) {{")
                     out += self.block(vals, depth - 1, ind + "  ", self.r.randint(0, 3), self._child(cur))
-                    out.append(f"{ind}  scf.yield {self.r.choice(vals)} : i32")
+                    out += self._branch_value(vals, ind + "  ")
                     out.append(f"{ind}}} else {{")
                     out += self.block(vals, depth - 1, ind + "  ", self.r.randint(0, 2), self._child(cur))
-                    out.append(f"{ind}  scf.yield {self.r.choice(vals)} : i32")
+                    out += self._branch_value(vals, ind + "  ")
                     out.append(f"{ind}}}")
                     vals += [r, r]
                 else:
